@@ -87,7 +87,7 @@ def handleRpcMethodCached (reg : Registry) (_fullSig : MethodDef → Signature) 
     (sigs : Nat → Signature) (memo : SigMemo) (name : String) (params : Params) :
     (MethodResult × List Event) × SigMemo :=
   match reg.get name with
-  | none => ((.rpcError (methodNotFoundWith (.set (.str s!"method '{name}' not found"))), []), memo)
+  | none => ((.rpcError (methodNotFoundWith (.set freeText)), []), memo)
   | some m =>
     if m.view && m.initRaises then ((.crashed, []), memo)
     else
